@@ -141,7 +141,10 @@ Shapes == <<
   [Base EXCEPT !.inputs = <<dot>>, !.output = outS, !.r = TRUE, !.match = <<<<99, 42>>, <<42, 46, 104, 116, 109, 108>>>>],   \* 66 --match=c* --match=*.html
   [Base EXCEPT !.inputs = <<dot>>, !.output = outS, !.r = TRUE, !.a = TRUE, !.filters = <<Exc(<<42, 42, 47, 101, 47, 42, 42>>), Exc(<<46, 104, 100, 47, 42, 42>>)>>],  \* 67 --exclude=**/e/** --exclude=.hd/**
   [Base EXCEPT !.inputs = <<o_html>>],                                                          \* 68 html -> stdout
-  [Base EXCEPT !.inputs = <<dot>>, !.b = TRUE, !.r = TRUE, !.match = <<G_css>>]                 \* 69 bundle of all css -> stdout
+  [Base EXCEPT !.inputs = <<dot>>, !.b = TRUE, !.r = TRUE, !.match = <<G_css>>],                \* 69 bundle of all css -> stdout
+  [Base EXCEPT !.inputs = <<x_js, a_js>>, !.output = all_js, !.b = TRUE, !.type = "application/javascript"],    \* 70 bundle, media type given
+  [Base EXCEPT !.inputs = <<n_txt, a_js>>, !.b = TRUE, !.type = "js", !.mime = TRUE],           \* 71 bundle --mime, a .txt file, -> stdout
+  [Base EXCEPT !.inputs = <<n_txt, <<100, 47, 110, 46, 116, 120, 116>>>>, !.output = all_js, !.b = TRUE, !.ext = <<[e |-> txt, t |-> "js"]>>]   \* 72 bundle of .txt via --ext
 >>
 
 Mk(S, k) == [tree |-> TreeOf(S), inv |-> Shapes[k]]
